@@ -138,6 +138,7 @@ Definition stop_kpc (k : crit) : Prop :=
   match k with KStopPending | KStopWait _ => True | _ => False end.
 
 Section Inv.
+  Variable stop_locked : bool.
   Variable validated : bool.
   Variable mux_ok : list str -> bool.
 
@@ -153,6 +154,8 @@ Section Inv.
     i_boot : rpc s = RWantBoot \/ rpc s = RInBoot \/ rpc s = RBooted -> fsm_st s = FBooting;
     i_running : fsm_st s = FRunning -> rpc s = RSelect \/ rpc s = RWantStop \/ rpc s = RInStop;
     i_reloading : fsm_st s = FReloading -> is_reload (holder s);
+    (* with the repaired shutdown Run never holds the mutex for stopServer under the state Running *)
+    i_locked : stop_locked = true -> rpc s = RInStop -> fsm_st s <> FRunning;
     i_ret : (exists r, rpc s = RRet r) \/ rpc s = RDone ->
             (fsm_st s = FError \/ fsm_st s = FStopped) /\ holder s = None /\
             forall j sv, nth_error (servers s) j = Some sv -> s_shut sv = true;
